@@ -1,1 +1,41 @@
-From Verif Require Import Base.Harness Model.Ledger.
+(* C04 — Escrow accounts always cover what the chain says it owes. *)
+From Coq Require Import ZArith List.
+From Verif Require Import Base.Dec Model.Escrow Model.Ledger Proofs.EscrowProofs.
+Import ListNotations.
+Open Scope Z_scope.
+
+(* the escrow invariant (oracle account = unpaid tips; tips pool within one 10^-18 unit per credit
+   entry of the credits, in both directions; sum of balances = supply) holds initially and is
+   preserved by every operation, hence along every history *)
+Theorem C04_inv_init u : einv (einit u).
+Proof. exact (einv_init u). Qed.
+Print Assumptions C04_inv_init.
+
+Theorem C04_inv_step s o s' : einv s -> estep s o = Some s' -> einv s'.
+Proof. exact (estep_inv s o s'). Qed.
+Print Assumptions C04_inv_step.
+
+Theorem C04_inv_histories ops s : einv s -> einv (fold_left estep_total ops s).
+Proof. exact (erun_inv ops s). Qed.
+Print Assumptions C04_inv_histories.
+
+(* whole-unit credits are covered by the tips pool; an entitled withdrawal never lacks funds *)
+Theorem C04_tips_escrow_covers s : einv s -> e_credit_ops s < P -> floor_sum (e_credits s) <= e_tips s.
+Proof. exact (tips_pool_covers_withdrawals s). Qed.
+Print Assumptions C04_tips_escrow_covers.
+
+Theorem C04_withdraw_never_insufficient s sel : einv s -> e_credit_ops s < P ->
+  owed_get sel (e_credits s) / P <= e_tips s.
+Proof. exact (withdraw_never_insufficient s sel). Qed.
+Print Assumptions C04_withdraw_never_insufficient.
+
+(* a tip on a round without report stays with the query *)
+Theorem C04_unreported_tip_carries s q a s' : estep s (ETip q a) = Some s' ->
+  owed_get q (e_owed s') = owed_get q (e_owed s) + (a - Z.quot (a * 2) 100).
+Proof. exact (tip_stays_until_paid s q a s'). Qed.
+Print Assumptions C04_unreported_tip_carries.
+
+(* time based rewards use up exactly the reward pool's balance *)
+Theorem C04_tbr_pays_whole_pool s cs s' : estep s (EPayTbr cs) = Some s' -> e_tbr s' = 0 /\ e_tips s' = e_tips s + e_tbr s.
+Proof. exact (tbr_pays_whole_pool s cs s'). Qed.
+Print Assumptions C04_tbr_pays_whole_pool.
